@@ -96,6 +96,31 @@ extern "C" void harness_c24_det_inv()
     }
     VERIF_END();
 }
+// 3x3 systems whose elimination needs a row exchange after the first step: A = [[1, a, b], [1, a, c], [d, e, f]] (the second
+// pivot vanishes), symbolic a..f and right-hand side; Gauss-Jordan solve and inverse, pivoted LU solve
+extern "C" void harness_c24_pivot3()
+{
+    long B = verif_param("B", 1);
+    auto en = [&](const char *n) { return integer(-B + (long)verif_choice(n, 2 * B + 1)); }; // one path per value
+    RCP<const Integer> a = en("a"), d = en("d"), e = en("e"), f = en("f"), b = sym_integer("b", -B, B), c = sym_integer("c", -B, B);
+    DenseMatrix A(3, 3, {integer(1), a, b, integer(1), a, c, d, e, f});
+    integer_class det = leibniz(A);
+    verif_assume(det != 0);
+    DenseMatrix rhs = sym_matrix("r", 3, 1, 1, 3), x(3, 1);
+    int alg = (int)verif_choice("alg", 3);
+    if (alg == 0) {
+        fraction_free_gauss_jordan_solve(A, rhs, x);
+        verif_assert(mat_eq(matmul(A, x), rhs), "A * gauss_jordan_solve(A, b) == b (row exchange after the first step)");
+    } else if (alg == 1) {
+        pivoted_LU_solve(A, rhs, x);
+        verif_assert(mat_eq(matmul(A, x), rhs), "A * pivoted_LU_solve(A, b) == b (row exchange after the first step)");
+    } else {
+        DenseMatrix Bm(3, 3);
+        inverse_gauss_jordan(A, Bm);
+        verif_assert(mat_eq(matmul(A, Bm), identity(3)), "A * inverse_gauss_jordan(A) == I (row exchange after the first step)");
+    }
+    VERIF_END();
+}
 extern "C" void harness_c24_factor()
 {
     N = (unsigned)verif_param("n", 2);
